@@ -79,6 +79,7 @@ type Case struct {
 	Hist  int    `json:"hist,omitempty"` // > 0: member of a history (consecutive cases with the same number): every mesh is kept and observed again after the last constructor call
 	Ord   int    `json:"ord,omitempty"`  // position inside the history / group (chosen by the generator)
 	Conc  int    `json:"conc,omitempty"` // > 0: member of a group whose constructors are called at the same time from several goroutines
+	Mag   []int  `json:"mag,omitempty"`  // magnitude <<base, exp>> (Solids.tla): every dimension is d/16 * base^exp; absent = 1
 }
 
 // Line is one observation. Only integers, strings and booleans; slices are
